@@ -104,6 +104,120 @@ theorem undecodable_dropped (s : S_dnsserver_ServerBase) (buf : List Int) (e : S
     serveDNS s buf (some e) w = (false, [("Unpack", ["_"]), ("OnInvalidMsg", ["_"])]) := by
   simp [serveDNS]
 
+/-! ## Round 3: the HTTP front end of DoH, as translated from `serverhttps.go` / `serverhttpsjson.go` -/
+
+def kindOf (r : Bool × Bool × String × List (String × List String)) : Agd.Serve.PathKind :=
+  if r.1 = false then .other else if r.2.1 then .json else .doh
+
+/-- The model's path classification (`Agd.Serve.pathKindOf`) is the translated `isDoH` on the elements of
+the cleaned path, for every path and every `ct` parameter: which requests are DNS requests at all, and
+which of the two APIs they address (`parts[1:]` is the re-slicing the translation leaves opaque). -/
+theorem isDoH_tr (clean raw ct : String) (r : Bool × Bool × String × List (String × List String))
+    (h : isDoH clean raw ((goSplit clean "/").drop 1) ct = some r) :
+    kindOf r = Agd.Serve.pathKindOf (goSplit clean "/") ∧
+    (r.2.2.1 = "application/x-javascript" ↔ (r.2.1 = true ∧ ct ≠ "application/dns-message")) := by
+  unfold isDoH at h
+  unfold Agd.Serve.pathKindOf
+  cases hs : goSplit clean "/" with
+  | nil => simp [hs, goIndex?] at h
+  | cons p0 rest =>
+    by_cases hp0 : p0 = ""
+    · subst hp0
+      cases rest with
+      | nil => simp [hs, goIndex?] at h
+      | cons p1 rest' =>
+        simp only [hs, goIndex?, List.drop] at h
+        simp at h
+        by_cases h1 : p1 = ""
+        · simp [h1] at h; subst h; simp [kindOf, h1]
+        · by_cases h2 : goHasSuffix "/dns-query" p1 = true
+          · simp [h1, h2] at h; subst h
+            simp [kindOf, h1, Agd.Serve.pathDoH, goHasSuffix] at h2 ⊢; simp [h2]
+          · by_cases h3 : goHasSuffix "/resolve" p1 = true
+            · simp [h1, h2, h3] at h
+              simp [goHasSuffix] at h2 h3
+              by_cases hc : ct = "application/dns-message"
+              · simp [hc] at h; subst h; simp [kindOf, h1, Agd.Serve.pathDoH, Agd.Serve.pathJSON, h2, h3, hc]
+              · simp [hc] at h; subst h; simp [kindOf, h1, Agd.Serve.pathDoH, Agd.Serve.pathJSON, h2, h3, hc]
+            · simp [h1, h2, h3] at h; subst h
+              simp [goHasSuffix] at h2 h3
+              simp [kindOf, h1, Agd.Serve.pathDoH, Agd.Serve.pathJSON, h2, h3]
+    · simp only [hs, goIndex?] at h
+      simp [hp0] at h
+      by_cases h2 : goHasSuffix "/dns-query" p0 = true
+      · simp [h2] at h; subst h
+        simp [kindOf, hp0, Agd.Serve.pathDoH, goHasSuffix] at h2 ⊢; simp [h2]
+      · by_cases h3 : goHasSuffix "/resolve" p0 = true
+        · simp [h2, h3] at h
+          simp [goHasSuffix] at h2 h3
+          by_cases hc : ct = "application/dns-message"
+          · simp [hc] at h; subst h; simp [kindOf, hp0, Agd.Serve.pathDoH, Agd.Serve.pathJSON, h2, h3, hc]
+          · simp [hc] at h; subst h; simp [kindOf, hp0, Agd.Serve.pathDoH, Agd.Serve.pathJSON, h2, h3, hc]
+        · simp [h2, h3] at h; subst h
+          simp [goHasSuffix] at h2 h3
+          simp [kindOf, hp0, Agd.Serve.pathDoH, Agd.Serve.pathJSON, h2, h3]
+
+/-- `httpRequestToMsg`: the JSON API whatever the method; otherwise GET → the `dns` parameter, POST → the
+body, any other method → an error (HTTP 400) — `Agd.Serve.dohFront`. -/
+theorem httpRequestToMsg_tr (d : Bool × Bool × String) (j g p : List Int × Option String) (meth : String) :
+    let r := httpRequestToMsg d j meth g p
+    (d.2.1 = true → (r.1, r.2.1) = j) ∧
+    (d.2.1 = false → meth = "GET" → (r.1, r.2.1) = g) ∧
+    (d.2.1 = false → meth = "POST" → (r.1, r.2.1) = p) ∧
+    (d.2.1 = false → meth ≠ "GET" → meth ≠ "POST" → r.2.1 ≠ none) := by
+  unfold httpRequestToMsg
+  cases hj : d.2.1 <;> simp [hj]
+  by_cases hg : meth = "GET"
+  · simp [hg]
+  · by_cases hp : meth = "POST"
+    · simp [hp]
+    · simp [hg, hp]
+
+/-- `httpRequestToMsgGet`: an error unless the `dns` parameter is present exactly once; then the decoder's
+result, nothing else. -/
+theorem httpRequestToMsgGet_tr (q : AbsPtr) (vals : List String) (ok : Bool) (dec : List Int × Option String) :
+    let r := httpRequestToMsgGet q (vals, ok) dec
+    ((ok = false ∨ vals.length ≠ 1) → r.2.1 ≠ none ∧ r.1 = []) ∧
+    (ok = true → vals.length = 1 → (r.1, r.2.1) = dec) := by
+  unfold httpRequestToMsgGet
+  cases ok <;> simp
+  by_cases h1 : (vals.length : Int) = 1
+  · have : vals.length = 1 := by omega
+    simp [this]
+  · have : vals.length ≠ 1 := by omega
+    simp [h1, this]
+
+/-- The boolean parameters of the JSON API: exactly the six documented spellings, the default for an
+absent one, an error otherwise (`Agd.Serve.BoolParam`). -/
+theorem urlQueryParameterToBoolean_tr (name v : String) (dflt : Bool) :
+    let r := urlQueryParameterToBoolean name dflt v
+    ((v = "1" ∨ v = "true" ∨ v = "True") → r = (true, none)) ∧
+    ((v = "0" ∨ v = "false" ∨ v = "False") → r = (false, none)) ∧
+    (v = "" → r = (dflt, none)) ∧
+    (v ≠ "1" → v ≠ "true" → v ≠ "True" → v ≠ "0" → v ≠ "false" → v ≠ "False" → v ≠ "" → r.2 ≠ none) := by
+  unfold urlQueryParameterToBoolean
+  refine ⟨?_, ?_, ?_, ?_⟩
+  · rintro (h | h | h) <;> subst h <;> simp
+  · rintro (h | h | h) <;> subst h <;> simp
+  · intro h; subst h; simp
+  · intro a b c d e f g; simp [a, b, c, d, e, f, g]
+
+/-- `serveDoH` in every run: a request that does not convert gets HTTP 400 and nothing else happens — no
+address parsing, no `serveDNS`; otherwise the client's address is parsed before `serveDNS` is called
+exactly once; nothing written ⇒ HTTP 500; the response is released only after `writeResponse`. -/
+theorem serveDoH_tr (h : S_dnsserver_httpHandler) (conv : List Int × Option String) (ra la : AbsPtr)
+    (nw : Option S_dnsserver_NonWriterResponseWriter) (ri : AbsPtr) (written : Bool) (msg req : AbsPtr) (wr : Option String) :
+    let tr := names (serveDoH h conv ra la nw ri written msg req wr)
+    (conv.2 ≠ none → serveDoH h conv ra la nw ri written msg req wr =
+        [("httpRequestToMsg", ["_"]), ("OnInvalidMsg", ["_"]), ("Error", ["_", "_", "400"])]) ∧
+    (conv.2 = none → tr.take 5 = ["httpRequestToMsg", "remoteAddr", "NewNonWriterResponseWriter", "addRequestInfo", "serveDNS"] ∧
+        tr.count "serveDNS" = 1 ∧
+        (written = false → (serveDoH h conv ra la nw ri written msg req wr).getLast? = some ("Error", ["_", "No response", "500"])) ∧
+        (written = true → wr = none → tr.drop 5 = ["Msg", "writeResponse", "Dispose"]) ∧
+        (written = true → wr ≠ none → tr.count "Dispose" = 0)) := by
+  unfold serveDoH names
+  cases hc : conv.2 <;> cases written <;> cases wr <;> simp [hc] <;> decide
+
 example (s : S_dnsserver_ServerBase) : acceptMsg s false 0 1 0 0 = 0 ∧ acceptMsg s false 5 1 0 0 = 3 ∧
     acceptMsg s true 5 0 9 9 = 2 ∧ acceptMsg s false 4 1 2 0 = 1 := by
   simp [acceptMsg]
@@ -118,3 +232,8 @@ end Agd.Tie.TrC01
 #print axioms Agd.Tie.TrC01.accepted_served_by_handler
 #print axioms Agd.Tie.TrC01.dispose_is_last
 #print axioms Agd.Tie.TrC01.undecodable_dropped
+#print axioms Agd.Tie.TrC01.isDoH_tr
+#print axioms Agd.Tie.TrC01.httpRequestToMsg_tr
+#print axioms Agd.Tie.TrC01.httpRequestToMsgGet_tr
+#print axioms Agd.Tie.TrC01.urlQueryParameterToBoolean_tr
+#print axioms Agd.Tie.TrC01.serveDoH_tr
